@@ -50,7 +50,7 @@ func (m *Model) RunKinds(s *Sink, rule string) {
 					val = ex
 				}
 			}
-			res := caseResult(b.Succs[0], val)
+			res := caseResult(b.Succs[0], val, par, ta.AssertedType)
 			gotTypes[types.TypeString(ta.AssertedType, nil)] = res
 		case *ssa.BinOp:
 			if c.Op == token.EQL && c.X == ssa.Value(par) {
@@ -199,26 +199,41 @@ func (m *Model) RunKinds(s *Sink, rule string) {
 		}
 		okGuard := true
 		var badPos string
-		for _, b := range oi.Blocks {
-			ret, isRet := b.Instrs[len(b.Instrs)-1].(*ssa.Return)
-			if !isRet || second == nil || second.Block().Dominates(b) {
-				continue
+		_ = ar
+		// the name parameter is the string parameter of the function
+		var idxPar *ssa.Parameter
+		for _, p := range oi.Params {
+			if isStringT(p.Type()) {
+				idxPar = p
 			}
-			c, isC := stripIface(ret.Results[0]).(*ssa.Call)
-			if !isC || c.Call.StaticCallee() == nil || c.Call.StaticCallee().Name() != "newError" {
-				continue
-			}
-			// the name parameter is the string parameter of the function
-			var idxPar *ssa.Parameter
-			for _, p := range oi.Params {
-				if isStringT(p.Type()) {
-					idxPar = p
+		}
+		// path rule: no path from the entry to an error return avoids both the second lookup and an edge on which name == ""
+		if second == nil || idxPar == nil {
+			okGuard = false
+			badPos = m.Pos(oi.Pos())
+		} else {
+			seen := map[*ssa.BasicBlock]bool{}
+			var walk func(b *ssa.BasicBlock)
+			walk = func(b *ssa.BasicBlock) {
+				if seen[b] || b == second.Block() {
+					return
+				}
+				seen[b] = true
+				if ret, isRet := b.Instrs[len(b.Instrs)-1].(*ssa.Return); isRet {
+					if c, isC := stripIface(ret.Results[0]).(*ssa.Call); isC && c.Call.StaticCallee() != nil && c.Call.StaticCallee().Name() == "newError" {
+						okGuard = false
+						badPos = m.InstrPos(ret)
+					}
+					return
+				}
+				for _, sc := range b.Succs {
+					if edgeImpliesEmpty(b, sc, idxPar) {
+						continue
+					}
+					walk(sc)
 				}
 			}
-			if idxPar == nil || !ar.ProveValLE(ar.lenLin(idxPar, 0), 0, pointOf(ret)) {
-				okGuard = false
-				badPos = m.InstrPos(ret)
-			}
+			walk(oi.Blocks[0])
 		}
 		if okGuard {
 			s.OK(rule, fnKey(oi)+"|the fallback is tried for every non-empty name", m.Pos(oi.Pos()), "the only error return before the second lookup is under idx == \"\"")
@@ -267,7 +282,42 @@ func (m *Model) RunKinds(s *Sink, rule string) {
 
 // caseResult describes what a type-switch case block returns: "<object type> payload" when the
 // returned object's Value field holds val (possibly converted), else "<object type> other".
-func caseResult(b *ssa.BasicBlock, val ssa.Value) string {
+func caseResult(b *ssa.BasicBlock, val ssa.Value, extra ...any) string {
+	// extra: the switched parameter and the asserted type — then the payload may also be read back through
+	// reflection with the accessor of that type's kind (reflect.ValueOf(par).Int() for a signed integer type, ...)
+	var par ssa.Value
+	var asserted types.Type
+	if len(extra) == 2 {
+		par, _ = extra[0].(ssa.Value)
+		asserted, _ = extra[1].(types.Type)
+	}
+	viaReflect := func(v ssa.Value) bool {
+		c, ok := v.(*ssa.Call)
+		if !ok || par == nil || asserted == nil || c.Call.StaticCallee() == nil || len(c.Call.Args) != 1 {
+			return false
+		}
+		vo, ok := c.Call.Args[0].(*ssa.Call)
+		if !ok || vo.Call.StaticCallee() == nil || fnFullName(vo.Call.StaticCallee()) != "reflect.ValueOf" || stripIface(vo.Call.Args[0]) != par {
+			return false
+		}
+		bt, ok := asserted.Underlying().(*types.Basic)
+		if !ok {
+			return false
+		}
+		switch fnFullName(c.Call.StaticCallee()) {
+		case "(reflect.Value).Int":
+			return bt.Info()&types.IsInteger != 0 && bt.Info()&types.IsUnsigned == 0
+		case "(reflect.Value).Uint":
+			return bt.Info()&types.IsUnsigned != 0
+		case "(reflect.Value).Float":
+			return bt.Info()&types.IsFloat != 0
+		case "(reflect.Value).String":
+			return bt.Info()&types.IsString != 0
+		case "(reflect.Value).Bool":
+			return bt.Info()&types.IsBoolean != 0
+		}
+		return false
+	}
 	for i := 0; i < 3; i++ {
 		if _, ok := b.Instrs[len(b.Instrs)-1].(*ssa.Jump); ok && len(b.Instrs) == 1 {
 			b = b.Succs[0]
@@ -297,11 +347,53 @@ func caseResult(b *ssa.BasicBlock, val ssa.Value) string {
 				if cv, ok := v.(*ssa.Convert); ok {
 					v = cv.X
 				}
-				if v == val {
+				if v == val || viaReflect(v) {
 					return t + " payload"
 				}
 			}
 		}
 	}
 	return t + " other"
+}
+
+// edgeImpliesEmpty: taking the edge pred->succ establishes that the string v is empty
+// (v == "", !(v != ""), len(v) == 0, len(v) < 1, len(v) <= 0, !(len(v) > 0), !(len(v) >= 1), !(len(v) != 0)).
+func edgeImpliesEmpty(pred, succ *ssa.BasicBlock, v ssa.Value) bool {
+	isLen := func(x ssa.Value) bool {
+		c, ok := x.(*ssa.Call)
+		if !ok {
+			return false
+		}
+		bi, ok := c.Call.Value.(*ssa.Builtin)
+		return ok && bi.Name() == "len" && len(c.Call.Args) == 1 && c.Call.Args[0] == v
+	}
+	flip := map[token.Token]token.Token{token.LSS: token.GTR, token.GTR: token.LSS, token.LEQ: token.GEQ, token.GEQ: token.LEQ, token.EQL: token.EQL, token.NEQ: token.NEQ}
+	negate := map[token.Token]token.Token{token.LSS: token.GEQ, token.GEQ: token.LSS, token.LEQ: token.GTR, token.GTR: token.LEQ, token.EQL: token.NEQ, token.NEQ: token.EQL}
+	for _, f := range expandFacts(edgeFact(pred, succ)) {
+		bo, ok := f.Cond.(*ssa.BinOp)
+		if !ok {
+			continue
+		}
+		x, y, op := bo.X, bo.Y, bo.Op
+		if _, isK := x.(*ssa.Const); isK {
+			x, y, op = y, x, flip[op]
+		}
+		k, isK := y.(*ssa.Const)
+		if !isK || k.Value == nil {
+			continue
+		}
+		if !f.Holds {
+			op = negate[op]
+		}
+		switch {
+		case x == v && k.Value.Kind() == constant.String && constant.StringVal(k.Value) == "" && op == token.EQL:
+			return true
+		case isLen(x) && k.Value.Kind() == constant.Int:
+			n := k.Int64()
+			if (op == token.EQL && n == 0) || (op == token.LSS && n == 1) || (op == token.LEQ && n == 0) {
+				return true
+			}
+		}
+	}
+	return false
 }
